@@ -9,6 +9,8 @@ open NessaiVerif.Np
 
 variable {K : Type} [LinearOrder K]
 
+deriving instance DecidableEq for Except
+
 /-- ascending by log-likelihood -/
 def SortedL (l : List (Pt K)) : Prop := l.Pairwise (fun a b => a.logL ≤ b.logL)
 
@@ -396,6 +398,95 @@ theorem run_spec (n : Nat) (s : NS K) (hs : Reachable n s) (maxIt : Option Nat) 
         unfold NS.nliveSeen at h1
         rw [h1, handOver_resolved s'.nlive 0 s'.nlive l (by omega), hinv.count, hnl, hlen]
         simp [Quad.scheduleIncr]
+
+/-! #### chains of loop segments: finished or capped runs that are resumed and run again -/
+
+/-- what every state handed back to the caller satisfies, finalised or not -/
+structure ResultSpec (n : Nat) (r : NS K) : Prop where
+  nlive : r.nlive = n
+  count : r.nested.length = r.iteration + (if r.finalised then n else 0)
+  sorted : SortedL r.nested
+  birth : ∀ p ∈ r.nested, BirthLt r.logLs p
+  callsL : r.calls.map (·.1) = r.nested.map (·.logL)
+  callsN : r.nliveSeen = if r.finalised then Quad.scheduleIncr r.iteration n else List.replicate r.iteration n
+
+theorem FinalSpec.toResult {n : Nat} {maxIt : Option Nat} {r : NS K} (h : FinalSpec n maxIt r) : ResultSpec n r :=
+  ⟨h.nlive, h.count, h.sorted, h.birth, h.callsL, h.callsN⟩
+
+theorem spec_of_reachable (n : Nat) (s : NS K) (hs : Reachable n s) : ResultSpec n s := by
+  obtain ⟨l, hinv, hnl⟩ := reachable_inv n s hs
+  refine ⟨hnl, by simp [hinv.notFin, hinv.count], hinv.nestedSorted, fun p hp => hinv.birth p (by simp [hp]),
+    by simp [hinv.calls], ?_⟩
+  rw [nliveSeen_of_none s hinv.calls, hinv.notFin, hinv.count, hnl]
+  simp
+
+/-- one loop segment from a reachable state ends either un-finalised in a reachable state (cut short by the cap:
+it can be resumed and continued) or finalised -/
+theorem loop_result_reachable_or_final (n : Nat) (s : NS K) (hs : Reachable n s) (maxIt : Option Nat) (below : Bool)
+    (steps : List (List K × Bool)) (r : NS K) (h : nestedSamplingLoop maxIt s below steps = .ok r) :
+    (r.finalised = false ∧ Reachable n r) ∨ r.finalised = true := by
+  obtain ⟨l0, hinv0, _⟩ := reachable_inv n s hs
+  unfold nestedSamplingLoop at h
+  rw [hinv0.notFin] at h
+  simp only [Bool.false_eq_true, ↓reduceIte] at h
+  cases hw : whileLoop maxIt s below steps with
+  | error e => rw [hw] at h; simp at h
+  | ok res =>
+    obtain ⟨s', b⟩ := res
+    rw [hw] at h
+    simp only at h
+    obtain ⟨hr', _⟩ := whileLoop_reachable n maxIt steps s below hs s' b hw
+    obtain ⟨l, hinv, _⟩ := reachable_inv n s' hr'
+    rw [hinv.notFin] at h
+    cases b with
+    | false =>
+      simp only [Bool.not_false, Bool.and_false, Bool.false_eq_true, ↓reduceIte, Except.ok.injEq] at h
+      subst h
+      exact Or.inl ⟨hinv.notFin, hr'⟩
+    | true =>
+      simp only [Bool.not_false, Bool.and_self, ↓reduceIte] at h
+      unfold finalise at h
+      rw [hinv.hlive] at h
+      simp only [Except.ok.injEq] at h
+      subst h
+      exact Or.inr rfl
+
+/-- a finalised sampler is returned unchanged by every further call ("Run has already finished!") -/
+theorem runSegments_finalised (segs : List (Option Nat × Bool × List (List K × Bool))) (s : NS K)
+    (h : s.finalised = true) : runSegments s segs = .ok s := by
+  induction segs with
+  | nil => rfl
+  | cons seg rest ih =>
+    obtain ⟨m, b, st⟩ := seg
+    simp only [runSegments, nestedSamplingLoop, h, ↓reduceIte]
+    exact ih
+
+/-- any chain of loop segments from a reachable state — the run resumed and run again any number of times,
+finished, capped or not — hands back a state with the counts, order, births and integral-state record of the
+single-segment theorems -/
+theorem chain_spec (n : Nat) (segs : List (Option Nat × Bool × List (List K × Bool))) :
+    ∀ (s : NS K), Reachable n s → ∀ r, runSegments s segs = .ok r → ResultSpec n r := by
+  induction segs with
+  | nil =>
+    intro s hs r h
+    simp only [runSegments, Except.ok.injEq] at h
+    subst h
+    exact spec_of_reachable n s hs
+  | cons seg rest ih =>
+    intro s hs r h
+    obtain ⟨m, b, st⟩ := seg
+    simp only [runSegments] at h
+    cases h1 : nestedSamplingLoop m s b st with
+    | error e => rw [h1] at h; simp at h
+    | ok s1 =>
+      rw [h1] at h
+      simp only at h
+      rcases loop_result_reachable_or_final n s hs m b st s1 h1 with ⟨_, hr⟩ | hfin
+      · exact ih s1 hr r h
+      · rw [runSegments_finalised rest s1 hfin] at h
+        simp only [Except.ok.injEq] at h
+        subst h
+        exact (run_spec n s hs m b st s1 h1).toResult
 
 /-! #### where the stored likelihood values come from -/
 
